@@ -49,6 +49,10 @@ def generate(rng, tier):
                 lines.append('joy.r')
         lines.append('joy.r')
         cases.append(('h%d' % k, lines))
+    # through the whole machine: display key events -> controller -> JOYP read through the Mapper
+    from props import sysgen
+    for k in range(6 if tier == 'quick' else 60):
+        cases.append(('key%d' % k, sysgen.key_case(rng, [0x18, 0xfe], n_events=12)))
     info = dict(exhaustive=(tier == 'thorough'),
                 input_distribution=dict(state_event_cases=n, random_histories=len(cases) - n,
                                         ops_total=sum(len(c[1]) for c in cases)),
